@@ -13,9 +13,10 @@ var prop = &harness.Property{
 		{Name: "P", Weight: 3, Run: scenarioP},
 		{Name: "N", Weight: 2, Run: scenarioN},
 		{Name: "B", Weight: 3, Run: scenarioB},
+		{Name: "G", Weight: 3, Run: scenarioG},
 		{Name: "L", Weight: 3, Run: scenarioL},
 	},
-	Real:        []string{"net/queue.LinkedListQueue", "net/queue.ChannelQueue", "bot.Conn (warpConn reader/writer goroutines)", "net/packet Pack/UnPack with bufPool/zlibPool", "nbt encode/decode with the per-type cache", "server.PlayerList"},
+	Real:        []string{"net/queue.LinkedListQueue", "net/queue.ChannelQueue", "bot.Conn (warpConn reader/writer goroutines)", "bot.Client.HandleGame/handleBundlePackets/handlePacket over bot.Conn (resumed after handler errors)", "net/packet Pack/UnPack with bufPool/zlibPool", "nbt encode/decode with the per-type cache", "server.PlayerList"},
 	Stub:        []string{"sync primitives (simsync, simulator-owned: Mutex, Cond, Pool, Map, WaitGroup)", "simulated links"},
 	Assumptions: []string{"pushing after Close is a contract violation of the queues (they panic) and is never generated", "interleavings are explored at synchronisation/IO operations; memory-level races are the race build's job"},
 	Rule:        "a run is one seeded world: Q = producers/consumers/closer on either queue (modes close/quota/late), P = 2-8 packet streams sharing the pools, N = 2-8 tasks encoding/decoding through the type cache, B = bot.Conn with peer and close from either side, L = concurrent join/leave/sample on the player list; sizes, scheduling policy, pool policy drawn from the tape; every run also executes in the -race build. Non-trivial = more context switches than tasks; distinct = distinct hash of the (task, park-site) sequence",
